@@ -59,9 +59,9 @@ def gen(ctx):
                 # every atom rank at least once, several length patterns
                 picked, seen = [], set()
                 for a, l in combos:
-                    if len(a) not in seen or len(picked) < 5:
+                    if len(a) not in seen or len(picked) < 3:
                         picked.append((a, l)); seen.add(len(a))
-                    if len(picked) >= 6 and len(seen) == 4:
+                    if len(picked) >= 4 and len(seen) == 4:
                         break
                 combos = picked
             for a, l in combos:
